@@ -31,9 +31,10 @@ QUERIES = [
     ("MR", "bad_indices case_model_reload_bad cases"),
     ("O", "bad_indices case_oracle_bad cases"),
     ("H", "bad_indices case_hypothesis_bad cases"),
+    ("T", "bad_indices case_text_bad cases"),
 ]
 ASSUMPTIONS = [
-    "clause level: a clause is one accepted line with its fields already split; the regexps that recognise a line, white space, continuation lines, comments, section headers and includes are NOT in the Coq model - they are exercised only by the harness (free layout, comments, continuation lines, includes and parameters on the way in; the printed text read back by the harness with the check render(parse(text)) == text on every case)",
+    "clause level: a clause is one accepted line with its fields already split; the regexps that recognise a line, white space, continuation lines, comments, section headers and includes are NOT in the Coq model - they are exercised only by the harness (free layout, comments, continuation lines, includes and parameters on the way in; the printed text is read back into clauses by the harness, and Coq checks on every case that Model/Config.v's `render` of that clause list is the printed text, byte for byte)",
     "outside the model, passed as oracles (the theorems hold for every value of them; the cases instantiate them with tables computed by the real libraries): govaluate (which variables an expression mentions), Go regexp (compiles, group names; MatchString / ReplaceAllString only for the literal letter-digit patterns the generator uses for `repeat from` and `edit`), time.ParseDuration / Duration.String (the theorem assumes ParseDuration(d.String()) = d and that a printed duration holds no `~`)",
     "not modelled (compared by the harness on the exported configuration only): cfg.varNames order, the variables' watcher lists, actor sinks (they only show in comment lines of -p and in the CSV / plot fan-out); identifiers are checked on bytes, every byte >= 0x80 counting as a letter",
     "the storyline functions are Model/Storyline.v (C06); `story_printable` (a storyline accepted once is accepted again from its printed form) is a hypothesis of c10_reload_partial; c10_story_printable discharges it with the C06 theorems for runs whose storyline texts and edit results hold no white space but ' ' (C06's own domain assumption), and it is evaluated on every generated case",
@@ -113,6 +114,11 @@ def report(res, cases, summary, bad, seed, tier):
                           % (what, len(idx), c.get("Id"), q),
                           {"kind": "correspondence", "query": q, "n_disagreements": len(idx), "Input": c,
                            "also_oracle_failure": sorted(set(idx) & reported)[:10]}, no_input=True)
+    if bad["T"]:
+        c = get(bad["T"][0]) or {"Id": bad["T"][0]}
+        res.violation(None, "on %d cases the clause list the harness read back from the printed text does not render (Model/Config.v render, printCfg's layout) to that text, e.g. case %s: the printed format changed or the reader of the harness is wrong"
+                      % (len(bad["T"]), c.get("Id")),
+                      {"kind": "correspondence", "query": "T", "Input": c}, no_input=True)
     if bad["H"]:
         c = get(bad["H"][0]) or {"Id": bad["H"][0]}
         res.violation(None, "on %d cases the model state is not wf_state, or `printable` (the hypothesis of c10_reload_partial, which must exclude exactly the listed defect shapes) disagrees with whether the implementation's reload works, e.g. case %s"
